@@ -247,6 +247,11 @@ func (c *conn) send(ctx context.Context, msg *kmip.RequestMessage) error {
 //   - error: An error if the context is canceled, the connection is closed, or another issue occurs.
 func (c *conn) recv(ctx context.Context) (*kmip.ResponseMessage, error) {
 	if err := c.checkAvailable(ctx); err != nil {
+		if ctx.Err() != nil {
+			// The request has already been sent: close the client so that the late response
+			// cannot be delivered to a later call.
+			_ = c.terminate(io.ErrClosedPipe)
+		}
 		return nil, err
 	}
 	select {
